@@ -282,7 +282,10 @@ def eval_iface(rep, case, cache):
             pass
         except Exception as e:
             # any exception is "surfacing as an error"; a pool-infrastructure error is still an error
-            if type(e).__name__ not in ('BrokenProcessPool',) and 'TaskError' not in repr(e):
+            if type(e).__name__ == 'PicklingError':
+                # the pool failed before any task ran (inputs cannot cross the process boundary): the recorded PicklingError class, not a replaced task error
+                rep.fail(f'{PID}:apply_pool:{tag}:raises-PicklingError', f'{case["iface"]}: apply_pool raised {e!r} (workers={case["w"]}, chunksize={case["c"]})', rp)
+            elif type(e).__name__ not in ('BrokenProcessPool',) and 'TaskError' not in repr(e):
                 rep.fail(f'{PID}:apply_pool:{tag}:task-error-replaced-{type(e).__name__}',
                          f'{case["iface"]}: task raised TaskError but apply_pool raised {e!r}', rp)
         return
